@@ -362,8 +362,10 @@ func (t *Tokenizer) tokenizeBuffer(buf []byte, last bool) {
 		case tokenSpc:
 			t.addToken(string(t.tmp))
 		case tokenColon:
+			// A ':' or quote ends the token and is then handled the same
+			// way as when the token did not cross a buffer boundary.
 			t.addToken(string(t.tmp))
-			t.mode = valueMap
+			off--
 		case tokenNlColon:
 			t.addToken(string(t.tmp))
 			t.line++
